@@ -14,7 +14,7 @@ ID = "C16"
 MOD = __name__
 
 RULE_TEXT = (
-    "All LayeredArchitecture call sequences up to length 7 (quick) / 9 (thorough) over {layer(L1|L2), "
+    "All LayeredArchitecture call sequences up to length 7 (quick) / 9 (thorough) over {layer(L1|L2|L3), "
     "containing_modules('pkg.m1'|'pkg.m2'|['pkg.m1']|['pkg.m2']|['pkg.m1','pkg.m2']|[]), have_modules_with_names_matching(r), "
     "with_layer()}, explored depth-first and cut at the first rejected call; all LayerRule call sequences up to length 6 "
     "(quick) / 7 (thorough) over the 16-call vocabulary (the architecture has three layers with modules and a last layer L0 "
@@ -33,7 +33,7 @@ ASSUMPTIONS = [
 
 M1, M2, M3 = "pkg.m1", "pkg.m2", "pkg.m3"
 RX = r"pkg\.r.*"
-ARCH_OPS = [("layer", "L1"), ("layer", "L2"), ("cm", M1), ("cm", M2), ("cm", [M1]), ("cm", [M2]), ("cm", [M1, M2]),
+ARCH_OPS = [("layer", "L1"), ("layer", "L2"), ("layer", "L3"), ("cm", M1), ("cm", M2), ("cm", [M1]), ("cm", [M2]), ("cm", [M1, M2]),
             ("rx", RX), ("with_layer",), ("cm", [])]
 
 
